@@ -5,6 +5,7 @@ mod explore;
 mod faults;
 mod inv;
 mod keys;
+mod laysut;
 mod mapentry;
 mod mappairs;
 mod mapprobes;
